@@ -116,11 +116,16 @@ func drawCmdCase(t *simrt.Tape, name string, thorough bool) cmdCase {
 			body := genSeq(t, 20, 80, dna)
 			left, right := genSeq(t, 0, 30, dna), genSeq(t, 0, 30, dna)
 			s := left
-			switch t.Choose(5) {
+			switch t.Choose(7) {
 			case 0: // no site
 				s += body
 			case 1: // reverse strand
 				s = revcomp(left + mutate(t, fwd, 3) + body + revcomp(rev) + right)
+			case 5, 6: // several priming sites of each primer on one template (tandem amplicons)
+				for k := 2 + t.Choose(4); k > 0; k-- {
+					s += mutate(t, fwd, 2) + genSeq(t, 20, 40, dna) + mutate(t, revcomp(rev), 2) + genSeq(t, 0, 8, dna)
+				}
+				s += right
 			default:
 				s += mutate(t, fwd, 3) + body + mutate(t, revcomp(rev), 3) + right
 			}
@@ -450,7 +455,7 @@ func init() {
 		Random: func(tier string) int { return map[string]int{"quick": 320, "thorough": 24000}[tier] },
 		Run:    runC05,
 		Level:  "exploration",
-		Rule:   "each case = one generated (input, functional options) for one of obiconvert, obigrep, obiannotate, obicomplement, obicount, obicsv, obisummary, obipairing (overlapping read pairs with errors), obipcr (templates with 0-2 priming sites on either strand), obimultiplex (reads assembled from a generated sample sheet), run twice through the real main of the command in child processes: reference configuration (max-cpu 2, batch-size 2000, lowest-id schedule, pool that never reuses) and a drawn configuration (max-cpu 1..32, batch-size 1..n..2000, scheduling policy, pool policy LIFO/FIFO/random/never with poisoning of recycled buffers, dense-yield density, chunk-buffer size, map-order permutation); every output file must be byte-identical. distinct = distinct (command, options, configuration, schedule signature); non-trivial = at least one scheduling step with >=2 runnable tasks",
+		Rule:   "each case = one generated (input, functional options) for one of obiconvert, obigrep, obiannotate, obicomplement, obicount, obicsv, obisummary, obipairing (overlapping read pairs with errors), obipcr (templates with 0-5 priming sites of each primer, on either strand), obimultiplex (reads assembled from a generated sample sheet), run twice through the real main of the command in child processes: reference configuration (max-cpu 2, batch-size 2000, lowest-id schedule, pool that never reuses) and a drawn configuration (max-cpu 1..32, batch-size 1..n..2000, scheduling policy, pool policy LIFO/FIFO/random/never with poisoning of recycled buffers, dense-yield density, chunk-buffer size, map-order permutation); every output file must be byte-identical. distinct = distinct (command, options, configuration, schedule signature); non-trivial = at least one scheduling step with >=2 runnable tasks",
 		Real:   []string{"the real main body of each command (option parsing included)", "all obitools4 packages", "third-party modules", "the OS file system for inputs and outputs"},
 		Stub:   []string{"sync primitives, sync.Pool (deterministic, poisoning), goroutine scheduling", "os.Exit / logrus exit (captured)", "stdin/stdout/stderr (regular files)", "chunk-buffer constants (knob)", "Go map iteration order (tape-driven permutation)"},
 	})
